@@ -291,6 +291,18 @@ class CleanSession(libtab.SAConc, QHooks):
             n += 1
         return [Outcome(ret=fs(n), sets={up[1]: fs(int(s_[:n] or b'0') & 0xFFFFFFFFFFFFFFFF)})]
 
+    def prim_fmt_ulong(self, E, x, args):
+        from qv.esp import ptr_add
+        buf, u = libtab._one(args[0]), libtab._one(args[1])
+        if not isinstance(u, int):
+            return [Outcome(ret=TOP)]
+        digits = b'%d' % (u & 0xFFFFFFFFFFFFFFFF)
+        st = {}
+        if isinstance(buf, tuple) and buf[0] == '&':
+            for k, b_ in enumerate(digits):
+                st[ptr_add(buf, k)[1]] = fs(b_)
+        return [Outcome(ret=fs(len(digits)), sets=st)]
+
     def prim_fmtqfn(self, E, x, args):
         from qv.esp import ptr_add
         buf, pre, idv, split = libtab._one(args[0]), self.cstring(E, libtab._one(args[1])), libtab._one(args[2]), libtab._one(args[3])
@@ -330,9 +342,13 @@ class CleanSession(libtab.SAConc, QHooks):
 def clean_reference(req, fail=None, split=23):
     """qmail-clean(8): (unlinks attempted, answer) for one request (bytes including the terminating NUL)"""
     ok = 7 <= len(req) <= 100 and req.endswith(b'\0') and req[5:-1].isdigit() and req[:5] in (b'foop/', b'todo/')
+    # the number named must be one a message can have: it fits the id type (64 bits here) - a request cannot name one message and remove another;
+    # written as qmail-send writes it (no leading zeros) or not, it is then that number
+    if ok and int(req[5:-1]) >= 2 ** 64:
+        return [], b'x'
     if not ok:
         return [], b'x'
-    idv = int(req[5:-1]) & 0xFFFFFFFFFFFFFFFF
+    idv = int(req[5:-1])
     names = [b'intd/%d' % idv, (b'mess/%d/%d' % (idv % split, idv)) if req[:5] == b'foop/' else b'todo/%d' % idv]
     if fail is not None and fail[1] != 2:
         return names[:fail[0] + 1], b'!'
@@ -345,6 +361,7 @@ def explore_clean(db, rep):
     main = prog.fn('main', 'qmail-clean.c')
     long_ok = b'foop/' + b'1' * 94 + b'\0'            # 100 bytes: the longest request accepted
     reqs = [b'foop/12\0', b'todo/7\0', b'foop/0\0', b'todo/4294967297\0', b'foop/12a4\0', b'foop/a12\0', b'foop/12a\0', b'todoX77\0', b'todo/\0', b'foop/\0', b'foop7\0', b'\0',
+            b'foop/18446744073709551617\0', b'todo/18446744073709551616\0', b'todo/18446744073709551615\0', b'foop/99999999999999999999999999\0',
             b'mess/12\0', b'intd/12\0', b'FOOP/12\0', b'foop/12/3\0', b'foop/-1\0', b'foop/ 12\0', b'todo/../12\0', b'foop/' + b'1' * 95 + b'\0', long_ok, b'todo/99\0']
     sessions = [(reqs, None)]
     for k_unl in (0, 1):
@@ -386,7 +403,8 @@ def explore_clean(db, rep):
             if wans == b'x':
                 if unl:
                     key = ('unlink-needs-7<=len<=100' if not 7 <= len(req) <= 100 else 'unlink-needs-NUL-terminated-request' if not req.endswith(b'\0') else
-                           'unlink-needs-all-digits-5..len-2' if not req[5:-1].isdigit() else 'unlink-needs-5-byte-keyword')
+                           'unlink-needs-all-digits-5..len-2' if not req[5:-1].isdigit() else
+                           'unlink-only-for-the-number-named(fits-the-id-type)' if int(req[5:-1]) >= 2 ** 64 else 'unlink-needs-5-byte-keyword')
                     viol(key, what + 'qmail-clean unlinks %s; a request that does not name a message number after "foop/" or "todo/" must change nothing' % unl, tr)
                 elif ans[0] != b'x':
                     viol('rejected-request-changes-nothing', what + 'the answer is %r, documented "x"' % ans[0], tr)
@@ -410,7 +428,7 @@ def explore_clean(db, rep):
     H.sites = {}
     for k in ('exactly-one-status-byte-per-request', 'no-unlink-after-an-answer', 'plus-only-after-the-whole-removal-sequence', 'rejected-request-changes-nothing',
               'removal-order:foop/', 'removal-order:todo/', 'unlink-needs-5-byte-keyword', 'unlink-needs-7<=len<=100', 'unlink-needs-NUL-terminated-request',
-              'unlink-needs-all-digits-5..len-2', 'unlink-path-is-prefix+validated-id'):
+              'unlink-needs-all-digits-5..len-2', 'unlink-path-is-prefix+validated-id', 'unlink-only-for-the-number-named(fits-the-id-type)'):
         H.sites[k] = (k not in bad, 'qmail-clean.c:main', bad[k][0] if k in bad else '%d requests, %d unlinks' % (n_req, n_unl), bad[k][1] if k in bad else [])
     H.n_req, H.n_unl = n_req, n_unl
 
